@@ -220,6 +220,11 @@ def dict_model(case, res, L):
     return model, ev
 
 
+def uses_name(case, c):
+    names = {n['name'] for n in case['names']}
+    return any(t['k'] == 'lit' and t['s'] in names for t in c['form'].get('toks', []))
+
+
 def unqualified_range(case, c):
     """the cell's formula contains a range without a sheet qualifier"""
     fm = c['form']
@@ -395,6 +400,8 @@ def check_case(case, res, path, out):
             if not ok:
                 dis('eval-vs-spec', r['eval'], o, c, addr, {'formula': r['formula'].get('s')})
         if dev is not None and c['form']['f'] != 'e':
+            if uses_name(case, c):
+                continue        # read_and_parse_dict has no defined names: not the same content
             if c['sh'] != default_sheet and unqualified_range(case, c):
                 # read_and_parse_dict gives every formula the default sheet: an unqualified range on
                 # another sheet denotes other cells there (C03) - not the same content, nothing to compare
